@@ -86,3 +86,25 @@ Definition cpy_binop (op : string) (a b : core) : list core :=
 
 (* pairs for which CPython raises TypeError whatever the values *)
 Definition cpy_raises (op : string) (a b : core) : bool := match cpy_binop op a b with [] => true | _ => false end.
+
+(* ------------------------------------------------------------------ comparisons *)
+(* what Type.allows_membership of a class returns (shapes recognised by the translator) *)
+Inductive mkind := MNever | MAlways | MSubStr | MElem | MElems | MKeys.
+
+Definition cmpops := ["Lt"; "LtE"; "Gt"; "GtE"; "Eq"; "NotEq"; "Is"; "IsNot"; "In"; "NotIn"].
+Definition mem (x : string) (l : list string) : bool := existsb (String.eqb x) l.
+
+(* CPython: a comparison raises TypeError for EVERY pair of values of these operand types *)
+Definition cpy_cmp_raises (op : string) (a b : core) : bool :=
+  if mem op ["Eq"; "NotEq"; "Is"; "IsNot"] then false
+  else if mem op ["Lt"; "LtE"; "Gt"; "GtE"] then negb ((num a && num b) || core_eqb a b)
+  else if mem op ["In"; "NotIn"] then
+    match b with CInt | CFloat => true | CStr => negb (core_eqb a CStr) | CList | CTuple => false end
+  else false.
+
+(* the pedal classes a variable holding a core value can be typed with (a literal keeps its Literal-prefixed class) *)
+Definition reps (c : core) : list string :=
+  match c with
+  | CInt => ["IntType"; "LiteralInt"] | CFloat => ["FloatType"; "LiteralFloat"] | CStr => ["StrType"; "LiteralStr"]
+  | CList => ["ListType"] | CTuple => ["TupleType"]
+  end.
